@@ -46,6 +46,27 @@ def bswap16 (x : BitVec 16) : BitVec 16 := x.extractLsb' 0 8 ++ x.extractLsb' 8 
 def bswap32 (x : BitVec 32) : BitVec 32 :=
   x.extractLsb' 0 8 ++ x.extractLsb' 8 8 ++ x.extractLsb' 16 8 ++ x.extractLsb' 24 8
 
+/-- what the translated code cannot see: the clock and the transport.  `clock i` is the i-th reading of the monotonic clock,
+    `io i` the result of the i-th call of the transport's send/receive function; `calls` records, in order, the arguments of
+    every transport call (buffer offset, length, timeout) - the observable behaviour of the translated function. -/
+structure World where
+  clock : Nat → BitVec 64
+  io : Nat → BitVec 32
+  nclock : Nat := 0
+  nio : Nat := 0
+  calls : List (Nat × BitVec 64 × BitVec 64) := []
+
+/-- `lrtr_get_monotonic_time(&t)`: return code 0 and the next clock reading -/
+def extTime (w : World) : BitVec 32 × BitVec 64 × World :=
+  (0#32, w.clock w.nclock, { w with nclock := w.nclock + 1 })
+
+/-- `tr_send` / `tr_recv` (buffer, length, timeout): the world's next answer; the call is recorded -/
+def extIo (w : World) (buf : Nat) (len : BitVec 64) (timeout : BitVec 64) : BitVec 32 × World :=
+  (w.io w.nio, { w with nio := w.nio + 1, calls := w.calls ++ [(buf, len, timeout)] })
+
+/-- fuel of translated loops: more iterations than any counter of the translated code can count -/
+def FUEL : Nat := 2 ^ 64 + 1
+
 /-- memory made of a byte list (bytes beyond the list read as 0; the bounds guards never let them be read when
     `msize` is the length of the list) -/
 def memOfList (l : List Nat) : Nat → BitVec 8 := fun a => BitVec.ofNat 8 (l.getD a 0)
